@@ -708,6 +708,10 @@ pub fn raw_alphabet() -> Vec<(&'static str, Vec<u8>)> {
         ("disconnect", fw(Frame::DisconnectFrame(DisconnectFrame {}))),
         ("disconnect-ack", fw(Frame::DisconnectAckFrame(DisconnectAckFrame {}))),
         ("data", fw(Frame::DataFrame(DataFrame { sequence_id: 5, nonce: true, datagrams: vec![Datagram { sequence_id: 5, channel_id: 0, window_parent_lead: 0, channel_parent_lead: 0, fragment_id: 0, fragment_id_last: 0, data: vec![1, 2, 3].into() }] }))),
+        // frames whose ids are the nonce of the "valid SYN" letter: nothing that the sender of a SYN knows by itself stands in for the nonce the server issued
+        ("data, frame id = SYN nonce", fw(Frame::DataFrame(DataFrame { sequence_id: 0x5151, nonce: false, datagrams: vec![Datagram { sequence_id: 0x5151, channel_id: 0, window_parent_lead: 0, channel_parent_lead: 0, fragment_id: 0, fragment_id_last: 0, data: vec![1, 2, 3].into() }] }))),
+        ("data, frame id = SYN nonce, empty", fw(Frame::DataFrame(DataFrame { sequence_id: 0x5151, nonce: true, datagrams: vec![] }))),
+        ("ACK with the SYN's own nonce", fw(Frame::HandshakeAckFrame(HandshakeAckFrame { nonce_ack: 0x5151 }))),
         ("sync", fw(Frame::SyncFrame(SyncFrame { next_frame_id: Some(3), next_packet_id: Some(4) }))),
         ("ack", fw(Frame::AckFrame(AckFrame { frame_window_base_id: 1, packet_window_base_id: 2, frame_acks: vec![AckGroup { base_id: 0, bitfield: 1, nonce: false }] }))),
         ("garbage", vec![0xAB; 40]),
@@ -998,7 +1002,10 @@ pub fn c09_parts(quick: bool) -> (Vec<EwSpec>, Vec<Scenario>) {
         script.push(after_c(0, 1, act));
         let mut env = EwEnv::basic(8, 140);
         env.dev_start = 0; env.fates = DF_NONE; env.deltas = &[100]; env.fair_delta = 500; env.blackouts = &[1, 2, 3];
-        scs.push(sc(&format!("C09.right-after-connect.blackout.{}", sname), &cfg, script, env, 1, EO_C09 | EO_C08));
+        scs.push(sc(&format!("C09.right-after-connect.blackout.{}", sname), &cfg, script.clone(), env.clone(), 1, EO_C09 | EO_C08));
+        // ... and ending again around the end of the retry budgets (a last SYN-ACK repeat or disconnect request that gets through)
+        let mut envt = env; envt.blackout_lens = &[4, 20, 36, 37, 38, 39, 40, 41, 42, 43, 44, 45, 46]; envt.max_rounds = 200;
+        scs.push(sc(&format!("C09.right-after-connect.blackout-ends.{}", sname), &cfg, script, envt, 1, EO_C09 | EO_C08));
     }
     // disconnect() with Reliable data queued, the path towards the peer goes dark (the other direction stays up, so keep-alives hold off
     // the active time-out), and 3 s later the application gives up waiting and calls disconnect_now()
